@@ -15,7 +15,8 @@ LEVEL = "exploration"
 RULE = ("sequences of same-kind scalars (ints, floats, alphabetic strings; ties, repeats, nulls) under max/min/unique/"
         "distinct with and without inversion; Arrays-of-Hashes and hashes-of-hashes with a shared attribute that is "
         "present, absent, repeated or null, under max(a)/min(a)/unique(a)/distinct(a)/has_child(a) with and without "
-        "inversion; parent(n) for every node of random documents and n = 1..depth+1 (and no parameter); name() for "
+        "inversion (values include 0, 0.0, negatives and the empty string; max/min results followed by parent(n) and key "
+        "segments); parent(n) for every node of random documents and n = 1..depth+1 (and no parameter); name() for "
         "every node. Non-trivial = a collection with >=2 members (resp. a non-root node); distinct by (document, query)")
 ASSUMPTIONS = ["results are compared as multisets of locations: the statement says which members, not in which order",
                "members whose attribute is absent or null take no part in max/min (inverted: they are among the others); "
@@ -27,7 +28,7 @@ REACH = [("yamlpath/common/keywordsearches.py", "has_child,_has_concrete_child",
          ("yamlpath/common/keywordsearches.py", "parent", "parent"),
          ("yamlpath/common/keywordsearches.py", "distinct,unique,_track_seen_value", "distinct/unique")]
 SIZES = {"quick": 400000, "thorough": 4000000}
-REQUIRED_COUNTERS = ["minmax_checked", "unique_distinct_checked", "has_child_checked", "parent_checked", "name_checked"]
+REQUIRED_COUNTERS = ["minmax_checked", "unique_distinct_checked", "has_child_checked", "parent_checked", "name_checked", "chain_checked"]
 
 WORDS = ["apple", "bob", "cat", "dog", "emu", "fig"]
 
@@ -74,10 +75,10 @@ def gen_scalars(rng):
     kind = rng.choice(["int", "float", "str"])
     n = rng.randrange(1, 8)
     if kind == "int":
-        vals = [rng.choice([0, 1, 2, 5, 5, 9, -3, 12, 100]) for _ in range(n)]
+        vals = [rng.choice([0, 1, 2, 5, 5, 9, -3, 12, 100] if rng.random() < 0.5 else [-5, -3, -1, 0, 0, 0]) for _ in range(n)]
         txt = [str(v) for v in vals]
     elif kind == "float":
-        vals = [rng.choice([0.5, 1.5, 1.5, 2.25, -0.75, 10.5]) for _ in range(n)]
+        vals = [rng.choice([0.5, 1.5, 1.5, 2.25, -0.75, 10.5] if rng.random() < 0.5 else [-2.5, -0.5, 0.0, 0.0]) for _ in range(n)]
         txt = [repr(v) for v in vals]
     else:
         vals = [rng.choice(WORDS) for _ in range(n)]
@@ -135,7 +136,7 @@ def check_scalar_list(ctx, rng):
 def check_records(ctx, rng):
     """AoH or hash-of-hashes with a shared attribute v (present / absent / repeated / null)."""
     n = rng.randrange(1, 7)
-    kind = rng.choice(["int", "str"])
+    kind = rng.choice(["int", "int", "float", "str"])
     recs, vals = [], []
     for i in range(n):
         x = rng.random()
@@ -146,8 +147,14 @@ def check_records(ctx, rng):
             recs.append("{v: null, w: %d}" % i)
             vals.append(None)
         else:
-            v = rng.choice([1, 2, 5, 5, 9]) if kind == "int" else rng.choice(WORDS[:4])
-            recs.append("{v: %s, w: %d}" % (v, i))
+            if kind == "int":
+                # zero, negatives: a running extreme that is falsy must still be an extreme
+                v = rng.choice([1, 2, 5, 5, 9] if rng.random() < 0.5 else [-5, -3, -1, 0, 0, 0, 2])
+            elif kind == "float":
+                v = rng.choice([-2.5, -0.5, 0.0, 0.0, 1.5, 1.5, 3.25])
+            else:
+                v = rng.choice(WORDS[:4] + [""])
+            recs.append("{v: %s, w: %d}" % (repr(v) if kind != "int" else v, i))
             vals.append(v)
     shape = rng.choice(["aoh", "aoh", "hoh"])
     if shape == "aoh":
@@ -175,6 +182,28 @@ def check_records(ctx, rng):
             ctx.counters["minmax_checked"] = ctx.counters.get("minmax_checked", 0) + 1
             judge(ctx, "%s%s/%s-%s" % ("!" if inv else "", kw, shape, kind), {"doc": doc, "query": path},
                   run(data, path), cont, [refs[i] for i in (others if inv else members)])
+            if inv or rng.random() < 0.5:
+                continue
+            # the selected members carry full coordinates: later segments climb / descend from each of them
+            for tail, steps_from_member in (("[parent()]", 1), ("[parent(2)]", 2), (".w[parent(2)]", 1), (".w[parent()][parent()]", 1),
+                                            ("[parent(3)]", 3)):
+                q = path + tail
+                ctx.evaluations += 1
+                ctx.counters["chain_checked"] = ctx.counters.get("chain_checked", 0) + 1
+                got = run(data, q)
+                case = {"doc": doc, "query": q}
+                if got[0] == "CRASH":
+                    ctx.count("crash_handed_to_C15")
+                    continue
+                if steps_from_member == 3:
+                    if got[0] != "YPE":
+                        ctx.violation("%s-then-parent/climbs-above-root" % kw, {"case": case, "summary": "got %r" % (
+                            [repr(r.node)[:30] for r in got[1]],)})
+                    continue
+                want_node = cont if steps_from_member == 1 else data
+                if got[0] != "OK" or len(got[1]) != len(members) or any(r.node is not want_node for r in got[1]):
+                    ctx.violation("%s-then-parent/wrong-ancestor" % kw, {"case": case, "summary": "%d members; got %r" % (
+                        len(members), got[1] if got[0] != "OK" else [repr(r.node)[:40] for r in got[1]])})
     present = [i for i, v in enumerate(vals) if v != "ABSENT"]
     cnt = Counter(repr(vals[i]) for i in present)
     uniq = [i for i in present if cnt[repr(vals[i])] == 1]
